@@ -12,7 +12,7 @@ RULE = ("cdist(U,U) of a whole universe in one call for every weight triple of t
 ASSUMPTIONS = ["long strings are covered as a boundary family (lengths 254..400 x 3 shapes), not all strings of that length",
                "weights*length kept below 2^24 (float32 exactness of the generic scorer path is not relied on above that)",
                "rapidfuzz cdist workers=-1 answered with one thread in the bulk spaces; free-running-threads space uses the untouched function"]
-REQUIRED_CLASSES = {"all": ["asymmetric-ins-del", "long-string>255", "condensed-layout", "kwargs-forwarded", "free-running-threads"]}
+REQUIRED_CLASSES = {"all": ["asymmetric-ins-del", "long-string>255", "condensed-layout", "kwargs-forwarded", "free-running-threads", "several-metric-objects-alive"]}
 MIN_OUTCOMES = 10
 SINGLE_THREAD_RAPIDFUZZ = True
 
@@ -130,9 +130,12 @@ def check_case(case, acc):
     elif kind == "layout":
         X = list(case[1])
         m_ = len(X)
-        for w in ((1, 1, 1), (1, 2, 3), (3, 1, 2)):
+        # every metric object is constructed before any of them is used: instances must not share their weights
+        mets = {(w, cls): (mk(w) if cls == "W" else Levenshtein()) for w in ((1, 1, 1), (1, 2, 3), (3, 1, 2), (2, 2, 5)) for cls in (("W", "L") if w == (1, 1, 1) else ("W",))}
+        acc.cls("several-metric-objects-alive")
+        for w in ((1, 2, 3), (1, 1, 1), (3, 1, 2)):
             for cls in ("W", "L") if w == (1, 1, 1) else ("W",):
-                met = mk(w) if cls == "W" else Levenshtein()
+                met = mets[(w, cls)]
                 v = acc.call(met.calc_pdist_vector, X)
                 acc.cls("condensed-layout")
                 if w[0] != w[1]:
